@@ -44,6 +44,8 @@ enum Step {
     Restart,
     // only in the reboot wait
     PingOk,
+    /// answered ping whose answer dictates a poll interval
+    PingOkRetryAfter,
     PingTransport,
     PingUnparseable,
     PingForged,
@@ -91,6 +93,7 @@ fn effective(s: Step, poll_in_force: bool) -> Step {
                 Step::Unparseable
             }
         }
+        Step::PingOkRetryAfter => Step::PingOk,
         s => s,
     }
 }
@@ -122,7 +125,7 @@ fn run_one(ctx: &RunCtx, max_len: usize, bounded: bool) -> RunOut {
     let mut marks: Vec<(Step, i128, i128, usize, usize)> = vec![];
     for _ in 0..max_len {
         let menu: Vec<Step> = if h.in_reboot_wait() {
-            let mut m = vec![Step::PingOk, Step::PingTransport, Step::PingUnparseable, Step::EndWait, Step::Restart];
+            let mut m = vec![Step::PingOk, Step::PingTransport, Step::PingUnparseable, Step::EndWait, Step::Restart, Step::PingOkRetryAfter];
             if cup {
                 m.push(Step::PingForged);
             }
@@ -209,6 +212,7 @@ fn run_one(ctx: &RunCtx, max_len: usize, bounded: bool) -> RunOut {
                     k.other_retry_after = vec![Some(b"700".to_vec())];
                 }
                 Step::PingOk => {}
+                Step::PingOkRetryAfter => k.other_retry_after = vec![Some(b"900".to_vec())],
                 Step::PingTransport => k.other = vec![Rep::Transport],
                 Step::PingUnparseable => k.ping_unparseable = true,
                 Step::PingForged => k.other = vec![Rep::Forged],
@@ -222,7 +226,7 @@ fn run_one(ctx: &RunCtx, max_len: usize, bounded: bool) -> RunOut {
         };
         match s {
             Step::Restart => h.restart(),
-            Step::PingOk | Step::PingTransport | Step::PingUnparseable | Step::PingForged => h.ping(),
+            Step::PingOk | Step::PingOkRetryAfter | Step::PingTransport | Step::PingUnparseable | Step::PingForged => h.ping(),
             Step::EndWait => h.reboot_timer(),
             _ => h.check(),
         }
@@ -238,7 +242,7 @@ fn run_one(ctx: &RunCtx, max_len: usize, bounded: bool) -> RunOut {
         let g = h.ex().w.lock().unwrap();
         (g.store.history.clone(), std::collections::BTreeMap::new())
     };
-    let nontrivial = steps.iter().any(|s| is_failed_check(*s) == Some(true) || matches!(s, Step::PingOk | Step::PingTransport | Step::PingUnparseable | Step::PingForged));
+    let nontrivial = steps.iter().any(|s| is_failed_check(*s) == Some(true) || matches!(s, Step::PingOk | Step::PingOkRetryAfter | Step::PingTransport | Step::PingUnparseable | Step::PingForged));
     let mut out = RunOut::new(format!("len{}", steps.len()), nontrivial, trace::digest(&log));
     out.evals = 1;
     if ctx.want_trace {
@@ -623,7 +627,7 @@ fn parts(tier: Tier) -> Vec<PartDef> {
         PartDef::new(
             name,
             cfg,
-            json!({"history_length": if dev.is_some() { format!("exactly {len}") } else { format!("0..{len}") }, "check_classes": 15, "ping_classes": 4, "restart": "any position", "cup": ["off", "on"], "construction_failure_config": true,
+            json!({"history_length": if dev.is_some() { format!("exactly {len}") } else { format!("0..{len}") }, "check_classes": 15, "ping_classes": 5, "restart": "any position", "cup": ["off", "on"], "construction_failure_config": true,
                    "crash_points": "every environment interaction (decided per surviving committed snapshot; each snapshot is rebuilt into a fresh state machine)",
                    "exploration": match dev { None => "full product".to_string(), Some(d) => format!("all histories with at most {d} steps other than the default step (no-update check / successful ping)") }}),
             move |ctx| run_one(ctx, len, dev.is_some()),
